@@ -1155,6 +1155,10 @@ int vorbis_encode_ctl(vorbis_info *vi,int number,void *arg){
           hi->bitrate_av=ai->bitrate_average_kbps * 1000;
           hi->bitrate_av_damp=ai->bitrate_average_damping;
           hi->bitrate_reservoir=ai->bitrate_limit_reservoir_bits;
+          /* an empty reservoir would silently switch the limits off
+             (vorbis_bitrate_init); same floor as the deprecated call */
+          if(hi->bitrate_reservoir<128)
+            hi->bitrate_reservoir=128;
           hi->bitrate_reservoir_bias=ai->bitrate_limit_reservoir_bias;
         }
       }
